@@ -4,7 +4,8 @@ CONSTANTS
   MaxLen = 3
   SeqLen = 2
   ConcLen = 2
+  GzLen = 1
   Symbols = {1, 2}
   Mutant = "none"
-INVARIANTS TypeOK OracleSane LinesExact LinesPrefix CarryIsTail OKOnlyAfterAllLines NoOKOnError SidExclusive NoMixing NoForeignBytes BufOwned PendingStable Balanced
+INVARIANTS TypeOK OracleSane LinesExact LinesPrefix CarryIsTail OKOnlyAfterAllLines NoOKOnError SidExclusive NoMixing NoForeignBytes BufOwned PendingStable PoolHoldsEachObjectOnce ReaderIsMine GoodGets200 Balanced
 CHECK_DEADLOCK FALSE
